@@ -1310,6 +1310,11 @@ def trnorm(T):
     if not ishom(T) and not isrot(T):
         raise ValueError("expecting SO(3) or SE(3)")
 
+    if T.dtype.kind == 'f' and T.dtype.itemsize < 8:
+        # a single-precision matrix is normalised in double precision (in its
+        # own precision the result is orthonormal to 1e-8 only)
+        T = T.astype(np.float64)
+
     o = T[:3, 1]
     a = T[:3, 2]
 
